@@ -39,7 +39,7 @@ def run_sweep(chk, orch, oracle, make_wl, n_quick=10, n_round=32, crash_share=0.
                 fn = "scenarios:crash_resume"
                 a["fault"] = dict(forced)
                 a["resume"] = dict(a["fault"].pop("resume", None) or {})
-            elif chk.rng.random() < crash_share and not no_fault:
+            elif chk.rng.random() < crash_share:
                 fn = "scenarios:crash_resume"
                 if chk.rng.random() < 0.5:
                     a["fault"] = {"kind": "kill", "index": 12 + chk.rng.randrange(260), "phase": chk.rng.choice(["before", "after"])}
@@ -47,12 +47,17 @@ def run_sweep(chk, orch, oracle, make_wl, n_quick=10, n_round=32, crash_share=0.
                     # stage-relative kill (located with a fault-free probe run of the same job)
                     a["fault"] = {"kind": "kill", "stage": chk.rng.choice(["collect", "resolve", "construct", "construct", "merge", "merge", "cleanup"]),
                                   "frac": round(chk.rng.random(), 3), "phase": chk.rng.choice(["before", "after"])}
+                if no_fault:
+                    # the draws above were made (the seeded stream of the other jobs stays what it was), the fault is not used
+                    fn = "scenarios:pipeline"
+                    a.pop("fault", None)
                 # every fourth injected termination is a SIGINT to the top-level process instead of a SIGKILL of the tree: the
                 # stack unwinds (finally blocks, destructors, exit handlers run) - derived from numbers already drawn
-                if int(a["fault"].get("index", int(a["fault"].get("frac", 0) * 1000))) % 4 == 0:
-                    a["fault"]["kind"] = "interrupt"
-                    a["fault"]["phase"] = "before"
-                a["resume"] = {}
+                if not no_fault:
+                    if int(a["fault"].get("index", int(a["fault"].get("frac", 0) * 1000))) % 4 == 0:
+                        a["fault"]["kind"] = "interrupt"
+                        a["fault"]["phase"] = "before"
+                    a["resume"] = {}
             if forced and forced.get("resume_hashseed") is not None:
                 # the killed run and the resumed run are different processes with different string hash seeds: first half
                 # here, second half (below) by the fork server of the other seed, on the same run directory
